@@ -234,6 +234,15 @@ func TestC13(t *testing.T) {
 			}
 			c.Docs = append(c.Docs, sgen.Draw(t, sgen.Opts{Draft: d, MaxDepth: 3, Lens: lens}))
 		}
+		if n(2, "defaultsdoc") == 0 {
+			// a schema with defaults at several depths: concurrent ApplyDefaults on private copies
+			// must not share what it inserts
+			dd := genC15Schema(t, 2+n(2, "ddepth"))
+			c.Docs = append(c.Docs, dd)
+			for i := 0; i < 2; i++ {
+				c.Instances = append(c.Instances, genC15Instance(t, dd, 3))
+			}
+		}
 		if n(2, "dynamic") == 0 {
 			c.Dynamic = genC06(t)
 			c.Instances = append(c.Instances, c.Dynamic.Calls...)
